@@ -395,3 +395,49 @@ H("C16", "tera", "c16_terrain_plate_positions", unwind=6, timeout=200, bounds="2
 H("C16", "tera", "c16_terrain_write_grid_coordinates", unwind=6, timeout=600, bounds="1 plate on the 128-unit grid: all i16 x, y", encodes=["tera::Terrain::write_to_buffer"], cbmc_args=FS256)
 H("C16", "tera", "c16t_pipeline_witness", expect="witness-fail", unwind=6, bounds="assert(false) twin")
 H("C18", "cmp", "c18_cmp_short_buffer", unwind=6, timeout=300, bounds="all 12-byte buffers (shorter than the table offset 0x2a800)", encodes=["cmp::CMP::from_existing"])
+
+# C14 continued: colour / dye rows, selectors, node lookup
+_H1 = ["half::binary16::arch::f16_to_f32 (run-time F16C dispatch) -> half's portable to_f32_const"]
+H("C14", "mtrl", "c14_legacy_color_row", unwind=13, timeout=600, bounds="all 32-byte rows (every half pattern in every component)", encodes=["mtrl::LegacyColorTableRow (BinRead)", "common_file_operations::Half1/2/3"], stubs=_H1)
+H("C14", "mtrl", "c14_dawntrail_color_row", unwind=13, timeout=900, bounds="all 64-byte rows", encodes=["mtrl::DawntrailColorTableRow (BinRead)"], stubs=_H1)
+H("C14", "mtrl", "c14_dye_rows", unwind=6, timeout=300, bounds="all u16 legacy / u32 Dawntrail dye words", encodes=["mtrl::LegacyColorDyeTableRow", "mtrl::DawntrailColorDyeTableRow"])
+H("C14", "mtrl", "c14m_pipeline_witness", expect="witness-fail", unwind=6, bounds="assert(false) twin")
+H("C14", "shpk", "c14_selector_polynomial", unwind=8, timeout=300, bounds="all key lists of length 0..6 (symbolic length and keys)", encodes=["shpk::ShaderPackage::build_selector"])
+H("C14", "shpk", "c14_selector_from_all_keys", unwind=8, timeout=300, bounds="key lists of lengths (2,1,3,2), all key values", encodes=["shpk::ShaderPackage::build_selector_from_all_keys", "build_selector_from_keys"])
+H("C14", "shpk", "c14_find_node_resolution", unwind=8, timeout=600, bounds="2 nodes + 2 aliases with symbolic selectors / in-range targets, symbolic query", encodes=["shpk::ShaderPackage::find_node"], cbmc_args=FS1K)
+H("C14", "shpk", "c14s_pipeline_witness", expect="witness-fail", unwind=8, bounds="assert(false) twin")
+H("C18", "shpk", "c18_find_node_alias_out_of_range", unwind=8, timeout=300, bounds="1 node + 1 alias with any target index, symbolic query", encodes=["shpk::ShaderPackage::find_node"], cbmc_args=FS1K)
+
+# C06 / C07 / C18: vertex declarations
+H("C06", "model_decl", "c06_declaration_parse_three_elements", unwind=20, timeout=600, bounds="1 declaration, 3 elements (concrete stream/type/usage, symbolic offset/usage index), all bytes after the terminator symbolic",
+  encodes=["model_vertex_declarations::vertex_element_parser", "VertexElement (binrw)"], cbmc_args=FS1K)
+H("C06", "model_decl", "c06_declaration_parse_two_declarations", unwind=20, timeout=600, bounds="2 declarations (1 and 2 elements): 17-slot stride", encodes=["model_vertex_declarations::vertex_element_parser"], cbmc_args=FS1K)
+H("C06", "model_decl", "c06_vertex_type_sizes", bounds="size table for the supported types", encodes=["model_vertex_declarations::get_vertex_type_size"])
+H("C06", "model_decl", "c06d_pipeline_witness", expect="witness-fail", unwind=20, bounds="assert(false) twin", cbmc_args=FS1K)
+H("C07", "model_decl", "c07_declaration_write_parse_roundtrip", unwind=20, timeout=600, bounds="2 declarations (2 and 3 elements), symbolic offsets / usage indices",
+  encodes=["model_vertex_declarations::vertex_element_writer", "model_vertex_declarations::vertex_element_parser"], cbmc_args=FS1K)
+H("C18", "model_decl", "c18_declaration_seventeen_elements", unwind=22, timeout=300, bounds="declaration with 17 elements before the terminator", encodes=["model_vertex_declarations::vertex_element_parser"], cbmc_args=FS1K)
+
+# ================================================================================================
+# C17 — untrusted user / launcher files (narrow)
+# ================================================================================================
+H("C17", "cfo", "c17_read_string_ascii", unwind=8, timeout=300, bounds="all 3-byte ASCII inputs (2 text bytes + text/NUL)", encodes=["common_file_operations::read_string"])
+H("C17", "cfo", "c17_read_string_any_bytes", unwind=8, timeout=300, bounds="all 2-byte inputs", encodes=["common_file_operations::read_string"])
+H("C17", "cfo", "c17_write_string_plain", unwind=8, timeout=300, bounds="all 3-byte ASCII strings without NUL", encodes=["common_file_operations::write_string", "get_string_len"])
+H("C17", "cfo", "c17_write_string_interior_nul", unwind=8, timeout=300, bounds="all 3-byte ASCII strings (NUL allowed)", encodes=["common_file_operations::write_string"])
+H("C17", "cfo", "c14c_pipeline_witness", expect="witness-fail", bounds="assert(false) twin")
+for n, st in (("oversized_header_deflated", _ORA), ("oversized_header_raw", []), ("negative_raw_length", []), ("sane_header", [])):
+    H("C17", "sqpack_mod", "c17_patch_block_" + n, unwind=70, timeout=300, bounds="concrete block header (" + n + "), 40 symbolic bytes of block data",
+      encodes=["sqpack::read_data_block_patch"], stubs=st, cbmc_args=FS256)
+H("C17", "execlookup", "c17_find_needle_terminated", unwind=12, timeout=300, bounds="one concrete file image (needle + text + terminator); decided by constant propagation", encodes=["execlookup::find_needle", "execlookup::from_u16"])
+H("C17", "execlookup", "c17_find_needle_unterminated", unwind=12, timeout=300, bounds="one concrete file image ending right after the text", encodes=["execlookup::find_needle"])
+H("C17", "execlookup", "c17_find_needle_absent", unwind=12, timeout=300, bounds="all 6-byte files without a zero high byte", encodes=["execlookup::find_needle"])
+
+# C18 continued
+_GR = ["EXD::read_data_raw -> guard returning None for reads past the end, real binrw reader otherwise"]
+H("C18", "exd", "c18_read_row_cell_past_end", unwind=20, timeout=300, bounds="one row, column offset 200 beyond the 54-byte file", encodes=_RR[:2], stubs=_GR)
+H("C18", "pbd", "c18_deform_link_index_out_of_range", unwind=20, timeout=300, bounds="4-node tree, start item's link index 9 (table has 4 links)", encodes=["pbd::PreBoneDeformer::get_deform_matrices"], cbmc_args=FS1K)
+H("C18", "pbd", "c18_deform_parent_cycle_terminates", unwind=16, timeout=300, bounds="4-node tree with a 2-cycle in the parent links; loop must exit within 10 iterations",
+  encodes=["pbd::PreBoneDeformer::get_deform_matrices"], cbmc_args=FS1K, unwind_is_violation="get_deform_matrices")
+H("C18", "tex", "c18_texture_short_payload_bc1", unwind=20, timeout=300, bounds="BC1 4x4 header with 4 payload bytes instead of 8, any attribute word", encodes=["tex::Texture::from_existing"], cbmc_args=FS256)
+H("C18", "tex", "c18_texture_short_payload_bgra", unwind=20, timeout=300, bounds="B8G8R8A8 2x1 header with 6 payload bytes instead of 8", encodes=["tex::Texture::from_existing"], cbmc_args=FS256)
